@@ -368,7 +368,10 @@ class Ctx:
     def finish(self):
         """write evidence + replays, print lines, return exit code"""
         wall = time.time() - self.t0
-        os.makedirs(os.path.join(VERIF, "evidence"), exist_ok=True)
+        # VERIF_OUT (used by tools/selftest.py only): evidence and replays of runs against a mutated scratch tree go
+        # elsewhere, so that the committed evidence always describes /repo itself
+        OUT = os.environ.get("VERIF_OUT") or VERIF
+        os.makedirs(os.path.join(OUT, "evidence"), exist_ok=True)
         n_obl = len(self.obligations) + len(self.bridge)
         n_ok = sum(1 for v in self.obligations.values() if v == "ok") + sum(1 for v in self.bridge.values() if v == "ok")
         # a broken obligation that produced no failing input is still a violation
@@ -381,13 +384,13 @@ class Ctx:
             lines.append(f"KNOWN-FINDING: property={self.prop} {k['id']} {k['summary']}")
         code = 0
         if self.violations:
-            os.makedirs(os.path.join(VERIF, "replays"), exist_ok=True)
+            os.makedirs(os.path.join(OUT, "replays"), exist_ok=True)
         for v in self.violations:
             rp = dict(property=self.prop, clause=v["clause"], seam=v["seam"], seed=self.seed, tier=self.tier,
                       broken_obligations=broken, found_failing_input=v["found_input"], **v["replay"],
                       how_to_replay=f"./check {self.prop} --replay <this file>")
             name = f"replays/{self.prop}-{sha8(rp)}.json"
-            with open(os.path.join(VERIF, name), "w") as f:
+            with open(os.path.join(OUT, name), "w") as f:
                 json.dump(rp, f, indent=1, default=str)
             tail = "" if v["found_input"] else " no-failing-input-found"
             lines.append(f"VIOLATION property={self.prop} replay={name}{tail}")
@@ -409,7 +412,7 @@ class Ctx:
             assumptions=self.assumptions,
             wall_s=round(wall, 2), violations=len(self.violations),
         )
-        with open(os.path.join(VERIF, "evidence", f"{self.prop}.json"), "w") as f:
+        with open(os.path.join(OUT, "evidence", f"{self.prop}.json"), "w") as f:
             json.dump(ev, f, indent=1, default=str)
         for ln in lines:
             print(ln)
